@@ -4,7 +4,7 @@ Writes seeded/<id>/meta.json (caught_by, ran) and seeded/MATRIX.md.  /repo is re
 import json, os, subprocess, sys, glob, re
 ROOT = os.path.dirname(os.path.abspath(__file__))
 REL = {"C01": ["C01", "C02", "C03", "C04"], "C02": ["C02", "C01"], "C03": ["C03", "C19", "C14"], "C04": ["C04", "C01", "C06", "C14"], "C05": ["C05", "C08", "C20"], "C06": ["C06", "C04"],
-       "C07": ["C07", "C13", "C11", "C04"], "C08": ["C08", "C16"], "C09": ["C09", "C08"], "C10": ["C10"], "C11": ["C11", "C13"], "C12": ["C12"], "C13": ["C13"],
+       "C07": ["C07", "C13", "C11", "C04"], "C08": ["C08", "C16", "C15"], "C09": ["C09", "C08"], "C10": ["C10"], "C11": ["C11", "C13"], "C12": ["C12", "C11"], "C13": ["C13"],
        "C14": ["C14", "C01", "C03", "C08"], "C15": ["C15"], "C16": ["C16"], "C17": ["C17"], "C18": ["C18", "C19"], "C19": ["C19", "C03", "C18"], "C20": ["C20"]}
 only = sys.argv[1:]
 rows = []
